@@ -11,6 +11,7 @@ import (
 	cfs "github.com/containerd/continuity/fs"
 	"golang.org/x/sys/unix"
 	"verif/internal/core"
+	"verif/internal/refs"
 	"verif/internal/tree"
 )
 
@@ -80,6 +81,7 @@ func init() {
 		Rule: "each case runs in a chroot jail: /outside (sentinel files with unique marked bytes, dirs, symlinks, fifo, char device) plus /cN/{srcroot,dstroot,sib}. " +
 			"Source and destination trees (<=18 entries, depth<=3, names {a,b,d,l,outside,sib} shared with the sentinel trees, ~40% symlinks, hard-linked source files) get symlink targets drawn from: absolute into /outside, /cN/sib, the other root and '/', '../'-chains of exactly and more than the depth needed to leave the root, in-tree, dangling (incl. not-yet-existing names inside sentinel dirs) and loops (self, pairs). " +
 			"src and dst arguments are drawn from entry paths, paths continuing through every symlink, sentinel-looking absolute and '../' arguments, nested new names, trailing separators, wildcards (src) and '..'-ending sources; flags are random subsets of {FollowLinks, AllowWildcards, AlwaysReplace, CopyDirContents, Chown, Utime, Mode}. fs.Copy is run once; errors are accepted. " +
+			"One case in four additionally runs with IncludePatterns (and a third of those with ExcludePatterns): patterns are derived from the source paths below the copied directory so that they select descendants of a directory but not the directory itself ('<dir>/*', '<dir>/<child>', '<dir>/*/*', '<dir>/**/<leaf>', '**/<leaf>', '*/<child>', '<dir>/**') plus refs.GenPatterns over the same paths; in two thirds of them whole trees are copied onto each other and in three quarters of those the destination gets a symlink to an existing directory outside the root (/outside/d, /outside, /cN/sib[/d[/d]], '../'-chains to the same) at the name of such a source directory (ancestors made real directories). Under patterns (a), (b), the landing of the (always selected) top-level entry and confinement are checked; replacement of nested destination symlinks is not (an unselected entry need not replace anything). " +
 			"Checked: (a) jail snapshot minus the inside of dstroot identical in every field incl. inode and ctime; (b) every regular file in dstroot afterwards is either untouched or has the bytes of a source-root file, and none carries a sentinel marker; (c) a destination symlink facing a source entry is replaced by that entry's type or the call fails, and nothing in dstroot outside the landing subtree and its ancestors changes; (d) on success the landing path equals base-name placement on top of an independent chroot-style resolution of both arguments over the tree models. " +
 			"non-trivial = an escaping symlink (absolute or leaving its root through '..') was traversed by an argument, lies in the copied source subtree or lies in the destination landing region; distinct by (trees, arguments, flags) fingerprint",
 		Assumptions: []string{
@@ -332,14 +334,6 @@ func c14Run(c *core.Ctx) *core.Result {
 	}
 	srcT := c14Tree(c.R, "src", cn)
 	dstT := c14Tree(c.R, "dst", cn)
-	if err := tree.Materialise(srcRoot, srcT); err != nil {
-		r.Inconclusive = "materialise src: " + err.Error()
-		return r
-	}
-	if err := tree.Materialise(dstRoot, dstT); err != nil {
-		r.Inconclusive = "materialise dst: " + err.Error()
-		return r
-	}
 	var fl cpFlags
 	fl.Follow, fl.Always, fl.CDC = c.R.P(1, 2), c.R.P(1, 2), c.R.P(1, 2)
 	fl.Chown, fl.Utime, fl.Mode = c.R.P(1, 6), c.R.P(1, 6), c.R.P(1, 8)
@@ -371,10 +365,32 @@ func c14Run(c *core.Ctx) *core.Result {
 	}
 	fl.Wild = c.R.P(1, 4) || (strings.ContainsAny(srcArg, "*?[") && c.R.P(5, 6))
 
+	// a fixed share of cases runs with include / exclude patterns
+	planted := ""
+	if c.R.P(1, 4) {
+		srcArg, dstArg, planted = c14Patterns(c.R, r, cn, srcT, dstT, srcArg, dstArg, &fl)
+	}
+	usePatterns := len(fl.Include)+len(fl.Exclude) > 0
+
+	if err := tree.Materialise(srcRoot, srcT); err != nil {
+		r.Inconclusive = "materialise src: " + err.Error()
+		return r
+	}
+	if err := tree.Materialise(dstRoot, dstT); err != nil {
+		r.Inconclusive = "materialise dst: " + err.Error()
+		return r
+	}
+
 	sample := map[string]any{"src_tree": srcT.Lines(), "dst_tree": dstT.Lines(), "src": srcArg, "dst": dstArg, "flags": fl.String()}
+	if usePatterns {
+		sample["include"], sample["exclude"] = fl.Include, fl.Exclude
+		if planted != "" {
+			sample["planted_dst_symlink_at_source_dir"] = planted
+		}
+	}
 	r.Sample = sample
 	h := fnv.New64a()
-	fmt.Fprintf(h, "%s|%s|%q|%q|%s", srcT.Fingerprint(), dstT.Fingerprint(), srcArg, dstArg, fl)
+	fmt.Fprintf(h, "%s|%s|%q|%q|%s|%q|%q", srcT.Fingerprint(), dstT.Fingerprint(), srcArg, dstArg, fl, fl.Include, fl.Exclude)
 	r.FP = fmt.Sprintf("%x", h.Sum64())
 
 	snap := func() (out, src, dst *tree.Tree, err error) {
@@ -416,6 +432,40 @@ func c14Run(c *core.Ctx) *core.Result {
 		return s
 	}
 
+	// triage only (names one class, never hides another): with include
+	// patterns AND always-replace, the removal of an existing target happens
+	// before the lazily created parents are validated; if a destination
+	// symlink stands where such a parent belongs, the "target" that is removed
+	// is an entry of the directory the link leads to. Such removals (and the
+	// mtime/ctime/nlink change of the directories they happen in) get their
+	// own signature; creations, byte or metadata changes never do.
+	var linkDirs []string
+	if usePatterns && fl.Always {
+		for _, e := range dstB.Entries {
+			if e.Type != tree.Symlink {
+				continue
+			}
+			if t, err := filepath.EvalSymlinks(filepath.Join(dstRoot, e.Path)); err == nil {
+				if st, err := os.Stat(t); err == nil && st.IsDir() {
+					linkDirs = append(linkDirs, strings.TrimPrefix(t, "/"))
+				}
+			}
+		}
+	}
+	sigOutside := func(def, p string, fields []string) string {
+		for _, f := range fields {
+			if f != "mtime" && f != "ctime" && f != "nlink" {
+				return def
+			}
+		}
+		for _, d := range linkDirs {
+			if under(p, d) {
+				return "always-replace-removes-below-unvalidated-lazy-parent"
+			}
+		}
+		return def
+	}
+
 	cerr := runCopy(srcRoot, srcArg, dstRoot, dstArg, fl)
 
 	outA, _, dstA, err := snap()
@@ -430,6 +480,18 @@ func c14Run(c *core.Ctx) *core.Result {
 		r.Count("calls_succeeded", 1)
 	}
 	r.AddSet("flag_combinations", fl.String())
+	if usePatterns {
+		r.Count("pattern_cases", 1)
+		if cerr == nil {
+			r.Count("pattern_cases_succeeded", 1)
+		}
+		if planted != "" {
+			r.Count("pattern_cases_dst_symlink_planted_at_source_dir", 1)
+			if cerr != nil {
+				r.Count("pattern_cases_planted_symlink_conflict_reported", 1)
+			}
+		}
+	}
 
 	// (a) nothing outside the inside of dstroot changed
 	bi, ai := outB.Index(), outA.Index()
@@ -437,7 +499,7 @@ func c14Run(c *core.Ctx) *core.Result {
 	for _, e := range outB.Entries {
 		j, ok := ai[e.Path]
 		if !ok {
-			r.Violate("outside-removed", "src=%q dst=%q [%s]: entry outside the destination root was removed: /%s", srcArg, dstArg, fl, e.String())
+			r.Violate(sigOutside("outside-removed", e.Path, nil), "src=%q dst=%q [%s]: entry outside the destination root was removed: /%s", srcArg, dstArg, fl, e.String())
 			continue
 		}
 		g := outA.Entries[j]
@@ -454,7 +516,7 @@ func c14Run(c *core.Ctx) *core.Result {
 			d = keep
 		}
 		if len(d) > 0 {
-			r.Violate("outside-changed", "src=%q dst=%q [%s]: entry outside the destination root changed (%s):\nbefore /%s ino=%d ctime=%d\nafter  /%s ino=%d ctime=%d", srcArg, dstArg, fl, strings.Join(d, ","), e.String(), e.Ino, e.Ctime, g.String(), g.Ino, g.Ctime)
+			r.Violate(sigOutside("outside-changed", e.Path, d), "src=%q dst=%q [%s]: entry outside the destination root changed (%s):\nbefore /%s ino=%d ctime=%d\nafter  /%s ino=%d ctime=%d", srcArg, dstArg, fl, strings.Join(d, ","), e.String(), e.Ino, e.Ctime, g.String(), g.Ino, g.Ctime)
 		}
 	}
 	for _, e := range outA.Entries {
@@ -638,7 +700,10 @@ func c14Run(c *core.Ctx) *core.Result {
 		type pair struct{ s, d string }
 		var pairs []pair
 		se := srcEntry(S.Path)
-		if se.Type == tree.Dir {
+		// under include/exclude patterns an unselected source entry need not
+		// replace what the destination holds: only the top-level pair (always
+		// selected) stays well defined
+		if se.Type == tree.Dir && !usePatterns {
 			for _, e := range srcB.Entries {
 				if properAncestor(S.Path, e.Path) {
 					rel := strings.TrimPrefix(strings.TrimPrefix(e.Path, S.Path), "/")
@@ -736,4 +801,106 @@ func c14LexicalDiverges(srcRoot, srcArg string, follow bool, S rres, dstRoot, ds
 		}
 	}
 	return ""
+}
+
+// c14Patterns turns a case into an include/exclude-pattern case. Patterns are
+// derived from the source paths below the copied directory so that they
+// select descendants of a directory but not the directory itself (the
+// directory is then created lazily, as a parent of a selected entry). In two
+// thirds of the cases whole trees are copied onto each other and the
+// destination gets a symlink to an existing directory outside the root at the
+// name of such a source directory.
+func c14Patterns(r *core.Rand, res *core.Result, cn string, srcT, dstT *tree.Tree, srcArg, dstArg string, fl *cpFlags) (string, string, string) {
+	rootish := r.P(2, 3)
+	if rootish {
+		srcArg = core.Pick(r, []string{"/", ".", "", "/."})
+		dstArg = core.Pick(r, []string{"/", "", "."})
+		fl.Wild = false
+	}
+	S := chrootResolve(srcT, srcArg, fl.Follow)
+	if S.Err != "" || !S.Exists || S.Type != tree.Dir {
+		// not a directory source: patterns are never consulted; keep a few anyway
+		fl.Include = refs.GenPatterns(r, 2, true, srcT.Paths()...)
+		return srcArg, dstArg, ""
+	}
+	type dirInfo struct {
+		rel   string
+		kids  []string // base names of direct children
+		leafs []string // base names of descendants that are not directories
+	}
+	var dirs []dirInfo
+	var rels []string
+	for _, e := range srcT.Entries {
+		if !properAncestor(S.Path, e.Path) {
+			continue
+		}
+		rel := strings.TrimPrefix(strings.TrimPrefix(e.Path, S.Path), "/")
+		rels = append(rels, rel)
+		if e.Type != tree.Dir {
+			continue
+		}
+		di := dirInfo{rel: rel}
+		for _, k := range srcT.Entries {
+			if tree.Parent(k.Path) == e.Path {
+				di.kids = append(di.kids, tree.Base(k.Path))
+			}
+			if properAncestor(e.Path, k.Path) && k.Type != tree.Dir {
+				di.leafs = append(di.leafs, tree.Base(k.Path))
+			}
+		}
+		if len(di.kids) > 0 {
+			dirs = append(dirs, di)
+		}
+	}
+	descend := func(d dirInfo) string {
+		forms := []string{d.rel + "/*", d.rel + "/" + core.Pick(r, d.kids), d.rel + "/*/*", "*/" + core.Pick(r, d.kids)}
+		if len(d.leafs) > 0 {
+			forms = append(forms, d.rel+"/**/"+core.Pick(r, d.leafs), "**/"+core.Pick(r, d.leafs), d.rel+"/**")
+		}
+		return core.Pick(r, forms[:len(forms)])
+	}
+	planted := ""
+	if len(dirs) > 0 {
+		d := core.Pick(r, dirs)
+		fl.Include = []string{descend(d)}
+		if r.P(1, 3) {
+			fl.Include = append(fl.Include, descend(core.Pick(r, dirs)))
+		}
+		if rootish && r.P(3, 4) {
+			// plant: the destination holds a symlink at the directory's name
+			// that leads to an existing directory outside the root
+			fl.Include = []string{core.Pick(r, []string{d.rel + "/*", d.rel + "/" + core.Pick(r, d.kids), d.rel + "/**"})}
+			cur := ""
+			comps := strings.Split(d.rel, "/")
+			for _, c := range comps[:len(comps)-1] {
+				cur = relJoin(cur, c)
+				if e := dstT.Get(cur); e == nil || e.Type != tree.Dir {
+					dstT.Remove(cur)
+					dstT.Put(tree.Entry{Path: cur, Type: tree.Dir, Perm: 0755, Mtime: 1_250_000_000_000_000_000})
+				}
+			}
+			up := strings.Repeat("../", len(comps)-1)
+			target := core.Pick(r, []string{
+				"/outside/d", "/outside", "/outside/d/d", "/outside/sib", "/" + cn + "/sib", "/" + cn + "/sib/d", "/" + cn + "/sib/d/d",
+				up + "../sib/d", up + "../sib", up + "../../outside/d", strings.Repeat("../", 9) + "outside/d", up + "../../outside",
+			})
+			dstT.Remove(d.rel)
+			dstT.Put(tree.Entry{Path: d.rel, Type: tree.Symlink, Perm: 0777, Target: target, Mtime: 1_260_000_000_000_000_000})
+			dstT.Sort()
+			planted = d.rel + " -> " + target
+		}
+	} else {
+		fl.Include = refs.GenPatterns(r, 2, true, rels...)
+	}
+	if r.P(1, 4) {
+		fl.Include = append(fl.Include, refs.GenPatterns(r, 2, true, rels...)...)
+	}
+	if r.P(1, 3) {
+		fl.Exclude = refs.GenPatterns(r, 2, true, rels...)
+		if len(dirs) > 0 && r.P(1, 2) {
+			d := core.Pick(r, dirs)
+			fl.Exclude = append(fl.Exclude, d.rel+"/"+core.Pick(r, d.kids))
+		}
+	}
+	return srcArg, dstArg, planted
 }
